@@ -263,6 +263,15 @@ Theorem C01_live_row_handle_on_unrepeated_row : forall (y : Z) (os : list rop) (
 Proof. exact live_row_unrepeated. Qed.
 Print Assumptions C01_live_row_handle_on_unrepeated_row.
 
+(* written back (table.set_row(y, row) after the Row-level calls), the edit IS the Table-level row edit — inside the
+   plain-grid contract by edit_row_refines — exactly when the handle is a fresh Row beyond the table or the row is
+   stored unrepeated; on a repeated run set_row writes the row with the RUN's repeat at y (not a grid function either) *)
+Theorem C01_live_row_handle_written_back_is_table_edit : forall (y : Z) (os : list rop) (t : tstate),
+  WF t -> 0 <= y -> Forall live_ok os ->
+  (theight t <= y \/ exists r0, row_at y t = Some (1%nat, r0)) -> t_live_row_back y os t = t_edit_row y os t.
+Proof. exact live_row_back_is_table_edit. Qed.
+Print Assumptions C01_live_row_handle_written_back_is_table_edit.
+
 (* refuted: a live-handle edit is NOT a function of the plain grid — two run-length encodings of the same grid answer differently *)
 Theorem C01_live_row_handle_not_a_grid_function_refuted : exists (t1 t2 : tstate) (y : Z) (os : list rop) t1' t2',
   WF t1 /\ WF t2 /\ abs_t t1 = abs_t t2 /\ Forall live_ok os /\
